@@ -144,3 +144,7 @@ Print Assumptions C08_gcp_list_on_path.
 Print Assumptions C08_gcp_list_c.
 Print Assumptions gcp_list_order.
 Print Assumptions gcp_list_pinned_feasible.
+
+(* Non-vacuity: the concrete instances of Proofs/CauchyProofs.v (module Ex: n = 3, two memory columns, one variable on its lower
+   bound with outward gradient; theta = 2 and theta = 1) to which the theorems above are applied there by computation. *)
+Example C08_nonvacuous := (conj CauchyProofs.Ex.order_applies (conj CauchyProofs.Ex.on_path_applies CauchyProofs.Ex.pinned_theta2)).
